@@ -40,7 +40,8 @@ func (p *LinkedListQueue[T]) Pull() (v T, ok bool) {
 	p.cond.L.Lock()
 	for {
 		if elem := p.queue.Front(); elem != nil {
-			v = p.queue.Remove(elem).(T)
+			// (two-result form: a nil item of an interface-typed queue must not panic under the lock)
+			v, _ = p.queue.Remove(elem).(T)
 			ok = true
 			break
 		} else if p.closed {
